@@ -17,11 +17,11 @@ FORBIDDEN = re.compile(
     r"impredicative-set|Admit\s+Obligations")
 
 
-def sh(cmd, cwd=None, timeout=None, env=None, stdin=None):
+def sh(cmd, cwd=None, timeout=None, env=None, stdin=None, drop_stderr=False):
     """run a command, return (rc, stdout+stderr); rc=124 on timeout"""
     try:
         p = subprocess.run(cmd, cwd=cwd, env=env or ENV, timeout=timeout, shell=isinstance(cmd, str),
-                           stdout=subprocess.PIPE, stderr=subprocess.STDOUT, input=stdin)
+                           stdout=subprocess.PIPE, stderr=subprocess.DEVNULL if drop_stderr else subprocess.STDOUT, input=stdin)
         return p.returncode, p.stdout.decode("utf-8", "replace")
     except subprocess.TimeoutExpired as e:
         out = (e.stdout or b"").decode("utf-8", "replace")
@@ -150,7 +150,33 @@ def harness_bin():
 def run_impl(sub, cases_path, timeout=1800, extra_env=None):
     env = dict(ENV)
     if extra_env: env.update(extra_env)
-    return sh([harness_bin(), sub, cases_path], cwd=os.path.dirname(cases_path), timeout=timeout, env=env)
+    return sh([harness_bin(), sub, cases_path], cwd=os.path.dirname(cases_path), timeout=timeout, env=env,
+              drop_stderr=True)
+
+
+def run_impl_resilient(sub, cases, wd, timeout=1800):
+    """for harness subcommands that print '<id> !begin' before each case: when the process dies
+    (abort on allocation failure, stack overflow, kill) the case in flight is recorded as
+    '<id> abort' and the run resumes after it"""
+    out_all, rest, rounds = [], list(cases), 0
+    while rest and rounds < 50:
+        rounds += 1
+        p = os.path.join(wd, "cases_part%d.txt" % rounds)
+        with open(p, "w") as f: f.write("\n".join(rest) + "\n")
+        rc, out = run_impl(sub, p, timeout=timeout)
+        out_all.append(out)
+        if rc == 0: break
+        begun, done = None, set()
+        for ln in out.splitlines():
+            cid, _, r = ln.partition(" ")
+            if r == "!begin": begun = cid
+            elif not r.startswith("!"): done.add(cid)
+        if begun is None or begun in done:
+            out_all.append("<harness> !crash rc=%d\n" % rc); break
+        out_all.append("%s abort\n%s !abort rc=%d\n" % (begun, begun, rc))
+        ids = [c.split()[1] for c in rest]
+        rest = rest[ids.index(begun) + 1:]
+    return 0, "".join(out_all)
 
 
 def run_model(sub, cases_path, timeout=1800):
@@ -249,7 +275,10 @@ class Run:
         cases_path = os.path.join(wd, "cases.txt")
         with open(cases_path, "w") as f:
             f.write("\n".join(cases) + "\n")
-        rc_i, out_i = run_impl(mod.SUB, cases_path, timeout=getattr(mod, "IMPL_TIMEOUT", 1800))
+        if getattr(mod, "RESILIENT", False):
+            rc_i, out_i = run_impl_resilient(mod.SUB, cases, wd, timeout=getattr(mod, "IMPL_TIMEOUT", 1800))
+        else:
+            rc_i, out_i = run_impl(mod.SUB, cases_path, timeout=getattr(mod, "IMPL_TIMEOUT", 1800))
         with open(os.path.join(wd, "impl.txt"), "w") as f: f.write(out_i)
         impl = group_by_case(out_i)
         case_by_id = {c.split()[1]: c for c in cases}
@@ -260,7 +289,10 @@ class Run:
             with open(os.path.join(wd, "model.txt"), "w") as f: f.write(out_m)
             model = group_by_case(out_m)
             for cid in case_by_id:
-                a, b = model.get(cid, []), impl.get(cid, [])
+                a, b = model.get(cid, []), [x for x in impl.get(cid, []) if not x.startswith("!")]
+                if a == ["unmodelled"]:
+                    self.unmodelled = getattr(self, "unmodelled", 0) + 1
+                    continue
                 if hasattr(mod, "canon"):
                     a, b = mod.canon(a), mod.canon(b)
                 if a != b:
@@ -353,7 +385,9 @@ class Run:
             "distinct_nontrivial": n_nontrivial,
             "rule": getattr(mod, "RULE", ""),
             "samples": cases[:3] + cases[-2:] if cases else [],
-            "correspondence": {"cases_compared": len(case_by_id), "disagreements": len(disagreements),
+            "correspondence": {"cases_compared": len(case_by_id) - getattr(self, "unmodelled", 0),
+                               "cases_explored_not_modelled": getattr(self, "unmodelled", 0),
+                               "disagreements": len(disagreements),
                                "first_disagreements": disagreements[:3]},
             "known_finding_hits": n_known,
             "unknown_failures": [{k: v for k, v in f.items()} for f in unknown[:5]],
